@@ -260,15 +260,20 @@ fn build_member(idx: usize, n: usize, x: usize, cfg: &Value, picker: &mut Picker
         Ok(w) => (Some(w), None),
         Err(e) => (None, Some(format!("{:?}", e))),
     };
-    let label: &'static [u8] = match cfg["label"].as_str() {
-        Some("alt") => b"alternative context",
-        _ => b"symx context",
-    };
-    transcripts.push(Transcript::new(label));
+    transcripts.push(Transcript::new(context_label(cfg["label"].as_str())));
     let info = json!({"idx":idx,"m":m,"cap":cap,"seeded":seeded,"seed_node": seed.as_ref().map(env::scalar_id),
         "values":vinfo,"blindings":blindings.iter().map(|r| r.iter().map(env::scalar_id).collect::<Vec<_>>()).collect::<Vec<_>>(),
         "commitments":commit_ids,"witness_err":witness_err,"witness_tamper":wt_info});
     Member { statement, witness, witness_err, proof: None, blindings, info }
+}
+
+/// the caller's transcript context of a member: "alt" and the default are the two historical labels, any other string names its own context
+fn context_label(l: Option<&str>) -> &'static [u8] {
+    match l {
+        Some("alt") => b"alternative context",
+        None | Some("symx") => b"symx context",
+        Some(other) => Box::leak(format!("caller context {}", other).into_bytes().into_boxed_slice()),
+    }
 }
 
 fn run_batch(cfg: &Value) -> Value {
@@ -472,9 +477,8 @@ fn run_batch(cfg: &Value) -> Value {
     for (i, _) in members.iter().enumerate() {
         let mc = &members_cfg[i];
         match mc["verify_label"].as_str() {
-            Some("alt") => vtranscripts.push(Transcript::new(b"alternative context")),
-            Some("symx") => vtranscripts.push(Transcript::new(b"symx context")),
-            _ => vtranscripts.push(transcripts[i].clone()),
+            Some(l) => vtranscripts.push(Transcript::new(context_label(Some(l)))),
+            None => vtranscripts.push(transcripts[i].clone()),
         }
     }
     // permutation / selection of the batch at verification time
